@@ -203,6 +203,7 @@ def model_check(
     extra_args: Optional[List[str]] = None,
     expect_violation: bool = False,
     cfg_subst: Optional[Dict[str, str]] = None,
+    coverage: bool = False,
 ) -> Dict[str, Any]:
     """Run TLC on spec/<module>.tla with spec/<cfg>. Returns stats.
     cfg_subst rewrites the configuration text (used to switch deviations on)."""
@@ -232,7 +233,7 @@ def model_check(
             "-noGenerateSpecTE",
             "-config",
             cfg,
-        ] + (extra_args or []) + [module + ".tla"]
+        ] + (["-coverage", "1"] if coverage else []) + (extra_args or []) + [module + ".tla"]
         t0 = time.time()
         proc = subprocess.run(
             cmd, cwd=d, env=java_env(), stdout=subprocess.PIPE, stderr=subprocess.STDOUT,
@@ -249,6 +250,13 @@ def model_check(
         stats["violated"] = violated
         mv = re.search(r"Invariant (\w+) is violated", out)
         stats["violated_invariant"] = mv.group(1) if mv else ""
+        # per-action counts of the last coverage report: an action that never generated a state was
+        # never enabled, i.e. the properties were not exercised against it (vacuity)
+        acts: Dict[str, int] = {}
+        for mt in re.finditer(r"^<(\w+) line \d+, col \d+ to line \d+, col \d+ of module \w+>: (\d+):(\d+)\s*$", out, re.M):
+            acts[mt.group(1)] = int(mt.group(3))
+        stats["actions"] = acts
+        stats["never_enabled"] = sorted(a for a, n in acts.items() if n == 0 and a != "Init")
         stats["output_tail"] = "\n".join(out.splitlines()[-25:])
         stats["output"] = out
         if not ok and not violated:
